@@ -365,6 +365,38 @@ def gen_resize(scn, rng):
     return hist
 
 
+def gen_topology(scn, rng):
+    """Focused master-level histories on administrative changes under placed
+    instances: a server re-parented (to another rack, or to a bucket nobody
+    defined), blacked out, its rack detached from the cell - then cycles and a
+    fail-over."""
+    napps = rng.randrange(2, len(scn['apps']) + 1)
+    hist = [('CreateApp', [scn['apps'][j], rng.randrange(len(scn['aprofiles'])) + 1]) for j in range(napps)]
+    hist.append(('Cycle', []))
+    servers = sorted(s for s, k in scn['server_init'].items() if k)
+    racks = sorted(scn['racks'])
+    for _ in range(rng.randrange(1, 4)):
+        r = rng.random()
+        s = rng.choice(servers)
+        if r < 0.35:
+            hist.append(('SetParent', [s, rng.choice(racks + ['rack:nosuch', 'rack:nosuch'])]))
+        elif r < 0.55:
+            hist.append(('Blackout', [s]))
+        elif r < 0.7:
+            hist.append(('DetachRack', [rng.choice(racks)]))
+        elif r < 0.8:
+            hist.append(('AttachRack', [rng.choice(racks)]))
+        elif r < 0.9:
+            hist.append(('NodeDown', [s]))
+            hist.append(('NodeUp', [s, scn['server_init'][s]]))
+        else:
+            hist.append(('Tick', [rng.choice([1, 3])]))
+        hist.append(('Cycle', []))
+    hist.append(('Restart', []))
+    hist.append(('Cycle', []))
+    return hist
+
+
 def gen_servers(scn, rng, depth):
     """Focused L2 histories on the server life cycle: instances placed, then a
     small alphabet of server events - presence lost / re-registered with another
